@@ -90,12 +90,15 @@ def params_of(cls_name):
     return out
 
 
-KINDS = {"quantity": ["wrong_dimension", "negative", "raw_number", "string", "bare_quantity", "hourly_series"],
+KINDS = {"quantity": ["wrong_dimension", "negative", "raw_number", "string", "bare_quantity", "hourly_series",
+                      "not_allowed_for_server_type"],
          "list": ["wrong_class_element", "wrong_class_element_2", "string_element"],
-         "choice": ["outside_allowed_values"],
+         "choice": ["outside_allowed_values", "incompatible_with_fixed_count"],
          "hourly": ["scalar_instead", "raw_number", "other_length"], "link": ["wrong_class_link"],
          "tz": ["raw_string"]}
-SITES = ["construction", "assignment", "group", "list_mutator"]
+# group: in one ModelingUpdate next to a valid change of another object; group_same_object: after a valid change of
+# another input of the same object; group_after_noop: right after a change that re-submits an unchanged value
+SITES = ["construction", "assignment", "group", "group_same_object", "group_after_noop", "list_mutator"]
 
 
 def grid(spec):
@@ -113,6 +116,12 @@ def grid(spec):
                                                                                     "wrong_class_element_2")):
                         continue
                     if site == "list_mutator" and pk != "list":
+                        continue
+                    if kind == "not_allowed_for_server_type" and not (
+                            p == "fixed_nb_of_instances" and e["cls"] in S.SERVER_CLS and site != "construction"):
+                        continue
+                    if kind == "incompatible_with_fixed_count" and not (
+                            p == "server_type" and e["cls"] in S.SERVER_CLS and site != "construction"):
                         continue
                     cells.append({"obj": n, "cls": e["cls"], "param": p, "pkind": pk, "kind": kind, "site": site})
     return cells
@@ -151,6 +160,11 @@ def invalid_value(cell, objs, spec):
             return 3 * u(unit)
         if kind == "hourly_series":
             return SourceHourlyValues(create_hourly_usage_df_from_list([1.0, 2.0], datetime(2025, 1, 1), u(unit)))
+        if kind == "not_allowed_for_server_type":
+            # a fixed number of instances is only allowed on an on-premise server (conditional allowed list)
+            if str(obj.server_type.value) == "on-premise":
+                return None
+            return SourceValue(5000 * u.dimensionless)
     if cell["pkind"] == "list":
         if kind == "wrong_class_element":
             wrong = objs["st_a"] if "st_a" in objs else next(o for n, o in objs.items() if n.startswith("st"))
@@ -168,6 +182,13 @@ def invalid_value(cell, objs, spec):
             return cur + [wrong] if cur else None
         return list(getattr(obj, p)) + ["job"]
     if cell["pkind"] == "choice":
+        if kind == "incompatible_with_fixed_count":
+            # autoscaling is an allowed server type, but not while a fixed number of instances is set
+            from efootprint.abstract_modeling_classes.explainable_objects import EmptyExplainableObject
+            if isinstance(obj.fixed_nb_of_instances, EmptyExplainableObject) or \
+                    str(obj.server_type.value) != "on-premise":
+                return None
+            return SourceObject("autoscaling")
         return SourceObject("bogus value")
     if cell["pkind"] == "hourly":
         if kind == "scalar_instead":
@@ -183,8 +204,29 @@ def invalid_value(cell, objs, spec):
     return None
 
 
+SAFE_TO_SCALE = ("lifespan", "power", "idle_power", "carbon_footprint_fabrication", "average_carbon_intensity",
+                 "bandwidth_energy_intensity", "data_transferred", "user_time_spent", "power_usage_effectiveness",
+                 "carbon_footprint_fabrication_per_storage_capacity", "output_token_count", "video_duration",
+                 "data_stored", "base_storage_need")
+
+
 def valid_sibling_change(objs, spec, cell):
-    """A valid change on another attribute of the model (for the multi-change site)."""
+    """The other change of the multi-change sites: a valid change on another object, a valid change of another input of
+    the same object, or an unchanged value re-submitted for another input (of the same object when it has one)."""
+    if cell["site"] in ("group_same_object", "group_after_noop") and cell["cls"] != "System":
+        obj = objs[cell["obj"]]
+        for a in SAFE_TO_SCALE:
+            if a != cell["param"] and a in S.quantity_inputs(cell["cls"]):
+                cur = getattr(obj, a)
+                if cell["site"] == "group_after_noop":
+                    return [cur, SourceValue(1 * cur.value)]
+                return [cur, SourceValue(cur.value * 1.5)]
+        if cell["site"] == "group_same_object":
+            return None
+    if cell["site"] == "group_after_noop":
+        cur = objs[next(n for n in sorted(spec["objs"]) if spec["objs"][n]["cls"] == "Network" and n in objs)]\
+            .bandwidth_energy_intensity
+        return [cur, SourceValue(1 * cur.value)]
     for n in ("net_a",) + tuple(sorted(spec["objs"])):
         if n in objs and spec["objs"].get(n, {}).get("cls") == "Network" and n != cell["obj"]:
             cur = objs[n].bandwidth_energy_intensity
@@ -252,7 +294,12 @@ def run_cell(cell, objs, spec, ctx, case, reach=None, before=None):
                 else:
                     cur = getattr(obj, cell["param"])
                     sib = valid_sibling_change(objs, spec, cell)
-                    order = [[cur, bad], sib] if (hash(cell["param"]) % 2) else [sib, [cur, bad]]
+                    if sib is None:
+                        return ["not_applicable"]
+                    if cell["site"] == "group":
+                        order = [[cur, bad], sib] if (len(cell["param"]) % 2) else [sib, [cur, bad]]
+                    else:
+                        order = [sib, [cur, bad]]
                     ModelingUpdate(order)
             raised = None
         except M.Hang as ex:
